@@ -113,7 +113,7 @@ PROPS.update({
         sub="c11", cfgs=["D", "C"], hard=True,
         rule="direct calls of the public moderate_path::<F> on (w, q, truncated): a declined result is always accepted; a definite one must be the exact rounding of w*10^q and, if truncated, its rounding interval must contain all of [w, w+1)*10^q (exact oracle). (w=0, truncated) is excluded: it denotes no input. Non-trivial: 19/20-digit w or truncated.",
         exhaustive_over={"quick": "structured set (SEAM significands below 2^64, 0..=1100, 2^64-1-j) x every q in [-400,350] + i32 extremes x truncated in {false,true}; HARD(q) (exact ties, closest approaches, straddling truncations, low-word and second-multiplication cases) x both flags; f32 and f64; Eisel-Lemire (D) and Bellerophon (C)",
-                         "thorough": "plus dense 4096-wide windows at 10^18 and 2^63"},
+                         "thorough": "plus dense 32768-wide windows at 10^18, 10^19, 2^63 and 2^64"},
         assumptions=ASSUME_EXACT[:1] + ["a panic of the stage on meaningless triples in debug builds is recorded, not judged (a panic is not a guess)"]),
     "C12": dict(
         sub="c12", cfgs=["D", "C", "A", "CA"],
@@ -125,7 +125,7 @@ PROPS.update({
         sub="c13", cfgs=["D", "A"],
         rule="every operation history (constructor followed by d operations) is executed from scratch on a fresh real vector and compared step by step with a reference Vec (with the crate's capacity for the stack vector): contents, length <= capacity, failed push/extend/resize leave contents unchanged, eq/cmp against snapshots of earlier states agree with numeric comparison, is_normalized/hi64 agree. Histories are never merged.",
         exhaustive_over={"quick": "9 constructors x all 30-letter histories of depth 4 (7.3 M) + 9 x 12-letter core histories of depth 6 (26.9 M); StackVec (D) and HeapVec (A)",
-                         "thorough": "depth 5 full (219 M) + depth 7 core (322 M)"},
+                         "thorough": "depth 5 full (352 M) + depth 8 core (3.9 G)"},
         assumptions=["after a failed add_small/mul_small the contents are unspecified and the branch ends"]),
     "C14": dict(
         sub="c14", cfgs=ALL8,
